@@ -79,9 +79,16 @@ def segments(run):
 def c01(run):
     out = []
     b = run.spec["bounds"]
+    seen_nonfinite = set()
     for e in run.ev:
+        if e[0] == "EVAL" and e[4] in (float("inf"), float("-inf")):
+            seen_nonfinite.add(e[2])
         if e[0] == "EVAL" and not inbox(e[3], b):
-            out.append(V("C01/eval-outside-box", f"objective invoked at {e[3]} outside box {b} by {e[2]} (level {e[1]})"))
+            d = run.deme_objs.get(deme_of(e[2]))
+            if d is not None and type(d).__name__ == "LocalDeme" and any(t != t for t in e[3]) and e[2] in seen_nonfinite:
+                out.append(V("C01/eval-outside-box/local-search-nan-after-infinite-value", f"L-BFGS-B (local deme {e[2]}) probed the NaN point {e[3]} after the objective had returned an infinite value"))
+            else:
+                out.append(V("C01/eval-outside-box", f"objective invoked at {e[3]} outside box {b} by {e[2]} (level {e[1]})"))
             break
     for d in run.snaps[-1]["demes"]:
         for g in d["hist"]:
